@@ -1,11 +1,13 @@
 package c07
 
 import (
+	"context"
 	"encoding/json"
 	"fmt"
 	"math/rand/v2"
 	"sort"
 	"strings"
+	"sync"
 	"time"
 
 	corev1 "k8s.io/api/core/v1"
@@ -51,9 +53,54 @@ type CtlNode struct {
 //	pdb-pod  — a running DaemonSet pod (app=a9, namespace ns5) lands on the node together with a PDB that allows 0 disruptions
 //	mark     — the node is marked for deletion (by somebody else)
 //	node-dnd — the Node gets the do-not-disrupt annotation
+//	claim-delete      — somebody (expiration, a user, static scale-down, node repair …) deletes the NodeClaim; the informer
+//	                    delivers the NodeClaim with its deletionTimestamp to the cluster state
+//	claim-terminating — the NodeClaim reports InstanceTerminating=True; the informer delivers it
+//
+// When says at which point of the pass the change arrives:
+//
+//	"" / "validation" — while the controller sits in its first command-validation delay (only methods that validate ever wait)
+//	"compute"         — after the controller listed the candidates of the method (GetCandidates) and before the method
+//	                    computes its commands: the real method is wrapped (lateMethod) so that the real
+//	                    Controller.Reconcile delivers the change at the moment it calls ComputeCommands
 type Inject struct {
 	Node int    `json:"node"`
 	Kind string `json:"kind"`
+	When string `json:"when,omitempty"`
+}
+
+// lateMethod is the real disruption.Method with one thing added: the event `before` is delivered at the moment the
+// controller hands the candidates it listed to ComputeCommands.  Everything else (ShouldDisrupt, Class, Reason,
+// ComputeCommands itself) is the real method's.
+type lateMethod struct {
+	disruption.Method
+	before func() error
+	err    error
+}
+
+func (l *lateMethod) ComputeCommands(ctx context.Context, budgets map[string]int, cands ...*disruption.Candidate) ([]disruption.Command, error) {
+	if err := l.before(); err != nil {
+		l.err = err
+	}
+	return l.Method.ComputeCommands(ctx, budgets, cands...)
+}
+
+// lateTotalsMethod: the same for methods that take the NodePool totals of the pass (balanced scoring)
+type lateTotalsMethod struct {
+	*lateMethod
+	setter disruption.NodePoolTotalsSetter
+}
+
+func (l *lateTotalsMethod) SetNodePoolTotals(t map[string]disruption.NodePoolTotals) {
+	l.setter.SetNodePoolTotals(t)
+}
+
+func wrapLate(m disruption.Method, before func() error) (disruption.Method, *lateMethod) {
+	lm := &lateMethod{Method: m, before: before}
+	if s, ok := m.(disruption.NodePoolTotalsSetter); ok {
+		return &lateTotalsMethod{lateMethod: lm, setter: s}, lm
+	}
+	return lm, lm
 }
 
 type CtlIn struct {
@@ -216,6 +263,18 @@ func implController(raw json.RawMessage) (any, error) {
 	if method == nil {
 		return nil, fmt.Errorf("no method %q in NewMethods", in.Method)
 	}
+	// set before the controller goroutine starts / read after it finished (or from the stepping loop, under mu)
+	var mu sync.Mutex
+	injected := false
+	var inject func() error
+	atCompute := in.Inject != nil && in.Inject.When == "compute"
+	if in.Inject != nil && in.Inject.When != "" && in.Inject.When != "validation" && in.Inject.When != "compute" {
+		return nil, fmt.Errorf("bad injection point %q", in.Inject.When)
+	}
+	var late *lateMethod
+	if atCompute {
+		method, late = wrapLate(method, func() error { return inject() })
+	}
 	ctrl := disruption.NewController(clk, c, prov, cloud, recorder, cluster, queue, nil, disruption.WithMethods(method))
 	done := make(chan error, 1)
 	go func() {
@@ -228,8 +287,9 @@ func implController(raw json.RawMessage) (any, error) {
 		done <- err
 	}()
 	var rerr error
-	injected := false
-	inject := func() error {
+	inject = func() error {
+		mu.Lock()
+		defer mu.Unlock()
 		if in.Inject == nil || injected {
 			return nil
 		}
@@ -278,6 +338,32 @@ func implController(raw json.RawMessage) (any, error) {
 			if err := cluster.UpdateNode(ctx, n.DeepCopy()); err != nil {
 				return err
 			}
+		case "claim-delete", "claim-terminating":
+			if claims[i] == nil {
+				return nil
+			}
+			nc := &v1.NodeClaim{}
+			if err := c.Get(ctx, client.ObjectKey{Name: claimNameI(i)}, nc); err != nil {
+				return err
+			}
+			if in.Inject.Kind == "claim-delete" {
+				// the NodeClaim carries the termination finalizer: Delete only sets the deletionTimestamp
+				if err := c.Delete(ctx, nc); err != nil {
+					return err
+				}
+			} else {
+				nc.StatusConditions().SetTrue(v1.ConditionTypeInstanceTerminating)
+				if err := c.Status().Update(ctx, nc); err != nil {
+					return err
+				}
+			}
+			if err := c.Get(ctx, client.ObjectKey{Name: claimNameI(i)}, nc); err != nil {
+				return err
+			}
+			if in.Inject.Kind == "claim-delete" && nc.DeletionTimestamp.IsZero() {
+				return fmt.Errorf("inject: NodeClaim %s is not terminating after Delete", nc.Name)
+			}
+			cluster.UpdateNodeClaim(nc.DeepCopy())
 		default:
 			return fmt.Errorf("bad injection %q", in.Inject.Kind)
 		}
@@ -294,14 +380,21 @@ wait:
 		default:
 			if clk.HasWaiters() {
 				// the controller sits in a validation delay: deliver the churn, then let the delay elapse
-				if err := inject(); err != nil {
-					return nil, err
+				if !atCompute {
+					if err := inject(); err != nil {
+						return nil, err
+					}
 				}
 				clk.Step(16 * time.Second)
 			}
 			time.Sleep(100 * time.Microsecond)
 		}
 	}
+	if late != nil && late.err != nil {
+		return nil, late.err
+	}
+	mu.Lock()
+	defer mu.Unlock()
 	out := &CtlOut{Cands: []int{}, Injected: injected}
 	if rerr != nil {
 		out.Err = "error"
@@ -368,10 +461,46 @@ func genController(r *rand.Rand, t core.Tier) any {
 		in.Nodes[k].Pods = append(in.Nodes[k].Pods, p)
 		in.Nodes[k].Mods = append(in.Nodes[k].Mods, "pdb")
 	}
-	if r.IntN(2) == 0 {
-		in.Inject = &Inject{Node: r.IntN(n), Kind: pick(r, "pod-dnd", "pod-dnd", "pdb-pod", "mark", "node-dnd")}
+	if r.IntN(5) < 3 {
+		// the change goes to a node without modifiers (a likely candidate) three times out of four
+		k := r.IntN(n)
+		var plain []int
+		for i, cn := range in.Nodes {
+			if len(cn.Mods) == 0 {
+				plain = append(plain, i)
+			}
+		}
+		if len(plain) > 0 && r.IntN(4) != 0 {
+			k = plain[r.IntN(len(plain))]
+		}
+		in.Inject = genInject(r, method, k)
 	}
 	return in
+}
+
+// deletionKinds: the node starts deleting (in the controller's own in-memory cluster state)
+var deletionKinds = []string{"mark", "claim-delete", "claim-terminating"}
+
+// validates: the method re-derives its candidates after a delay before it acts (consolidation); the drift methods
+// act on the candidates they were given and never wait
+func validates(method string) bool { return method != "Drift" && method != "StaticDrift" }
+
+func genInject(r *rand.Rand, method string, k int) *Inject {
+	inj := &Inject{Node: k}
+	if !validates(method) || r.IntN(2) == 0 {
+		inj.When = "compute"
+	}
+	if inj.When == "compute" && !validates(method) {
+		// no validation phase: only what the in-memory state of the controller itself says about deletion is looked at again
+		inj.Kind = deletionKinds[r.IntN(len(deletionKinds))]
+		return inj
+	}
+	if r.IntN(2) == 0 {
+		inj.Kind = deletionKinds[r.IntN(len(deletionKinds))]
+	} else {
+		inj.Kind = pick(r, "pod-dnd", "pod-dnd", "pdb-pod", "node-dnd")
+	}
+	return inj
 }
 
 func controllerLabels(raw json.RawMessage, out any) []string {
@@ -385,7 +514,11 @@ func controllerLabels(raw json.RawMessage, out any) []string {
 			l = append(l, "reconcile-error")
 		}
 		if inj, _ := m["injected"].(bool); inj && in.Inject != nil {
-			l = append(l, "injected:"+in.Inject.Kind)
+			when := in.Inject.When
+			if when == "" {
+				when = "validation"
+			}
+			l = append(l, "injected:"+in.Inject.Kind, "injected-at:"+when, fmt.Sprintf("%s:injected-at-%s:%s", in.Method, when, in.Inject.Kind))
 		}
 	}
 	return l
@@ -394,7 +527,7 @@ func controllerLabels(raw json.RawMessage, out any) []string {
 func controllerOp() *core.Op {
 	return &core.Op{
 		Name: "c07.controller",
-		Doc:  "the real disruption.Controller.Reconcile (one method via WithMethods, real provisioner, real orchestration queue, fake clock stepped through the validation delay) on a cluster of 2-5 nodes in assorted blocker states; the candidates of the commands it starts",
+		Doc:  "the real disruption.Controller.Reconcile (one method via WithMethods, real provisioner, real orchestration queue, fake clock stepped through the validation delay) on a cluster of 2-5 nodes in assorted blocker states, with a change delivered during the validation delay or between GetCandidates and ComputeCommands of the same pass; the candidates of the commands it starts",
 		N: func(t core.Tier) int {
 			if t == core.Thorough {
 				return 1800
@@ -403,7 +536,7 @@ func controllerOp() *core.Op {
 		},
 		Gen:  genController,
 		Impl: implController,
-		Rule: "random clusters of 2-5 nodes of the kind the method takes, each with 0-2 blocker/decoy/eligibility modifiers, optional PDB; in half of the cases a change (do-not-disrupt pod, PDB-covered pod, mark, node annotation) is delivered to one node while the controller sits in its validation delay; relational verdict: every node of a started command must be selected by the model and allowed by the specification at the instant the reconcile began AND after the injected change. non-trivial = the controller started at least one command",
+		Rule: "random clusters of 2-5 nodes of the kind the method takes, each with 0-2 blocker/decoy/eligibility modifiers, optional PDB; in 60% of the cases a change is delivered to one node (3 times out of 4 a node without modifiers) either while the controller sits in its validation delay or (always for Drift/StaticDrift, half of the time otherwise) between the controller's listing of the candidates and the method's ComputeCommands (the real method wrapped so that the real Reconcile delivers it): half deletion events (mark, NodeClaim deleted, NodeClaim InstanceTerminating; the only kinds for the drift methods), half do-not-disrupt pod / PDB-covered pod / node annotation; relational verdict: every node of a started command must be allowed by the model (listed at the beginning, final look of the scheduling simulation / validation after the change) and allowed by the specification at the instant the reconcile began AND after the injected change. non-trivial = the controller started at least one command",
 		Nontrivial: func(raw json.RawMessage, out any) bool {
 			m, _ := out.(map[string]any)
 			cs, _ := m["cands"].([]any)
